@@ -150,7 +150,8 @@ def altitude(msg: str) -> None | int:
     if tc < 19:
         altcode = altbin[0:6] + "0" + altbin[6:]
         alt = common.altitude(altcode)
-        if alt != -999999:
+        # (-999999 and -1 are the 'no altitude' values of the C common module)
+        if alt != -999999 and alt != -1:
             return alt
         else:
             # return None if altitude is invalid
